@@ -9,11 +9,12 @@ PROP = {'title': 'Ranges and iterators enumerate exactly their documented sequen
                '8-bit integer ranges this is the complete input space, so empty, inverted and type-maximum ranges, negative advances and '
                'wrap-around multiples are all enumerated rather than spot-checked.',
  'level_note': '16/32/64-bit and strong-typedef<int/unsigned long> ranges only on the boundary lattice plus a dense square around zero; '
-               'ranges longer than the walk cap (256 quick / 4096 thorough, 70000 for 16 bit thorough) are compared on their first cap '
-               'elements and on size(); ASan/UBSan/_GLIBCXX_ASSERTIONS aborts are attributed to the announced case',
+               'ranges longer than the walk cap (1024 quick / 16384 thorough, 70000 for 16 bit thorough) are compared on their first cap '
+               'elements and on size(); the thorough sweep over all 16-bit pairs walks 3 elements per range; cyclic_iterator also with '
+               'large multiples of the boundary length (up to 2^40*len+-1) against a 128-bit modulus; ASan/UBSan/_GLIBCXX_ASSERTIONS aborts are attributed to the announced case',
  'binaries': [{'name': 'C18', 'sources': ['harness/C18.cpp', 'harness/C18_grid.cpp'], 'libs': [], 'flavour': 'asan'}],
  'deadline': {'quick': 240, 'thorough': 1200},
- 'rule': 'nested loops over explicit domains: all (b,e) and all counts of int8_t/uint8_t (plain and behind a strong typedef), lattice '
+ 'rule': 'nested loops over explicit domains: all (b,e) and all counts of int8_t/uint8_t (plain and behind a strong typedef), thorough tier: all 2^32 (b,e) of int16_t and of uint16_t with the walk cut after 3 elements, lattice '
          '{0,+-1..,+-(2^k-1),+-2^k,+-(2^k+1),min..min+2,max-2..max} pairs of 16/32/64-bit types, all closed sub-ranges of enums with '
          '1..9 enumerators over 5 underlying types plus 8-bit enums with 127/128/255 enumerators, cyclic boundaries of length 1..6 at 3 '
          'positions x all start offsets x n in [-20,20] (thorough [-64,64]) over vector/pointer/deque/list/forward_list iterators, '
